@@ -116,3 +116,18 @@ Theorem generated_edit_distance_wrapper_refines_model :
   ltac:(let t := type of edit_distance_join_rows_end_to_end_flat in exact t).
 Proof. exact edit_distance_join_rows_end_to_end_flat. Qed.
 Print Assumptions generated_edit_distance_wrapper_refines_model.
+
+(* ==== the property stated DIRECTLY ABOUT THE CODE: the function regenerated from the Python source on this
+   run (Gen/WrapperGen.v, Gen/FilterWrapperGen.v, Gen/MatcherGen.v), applied to any well-formed frames,
+   returns a frame with header header_spec whose rows, read at key level (kview: left key, right key,
+   score), satisfy complete_spec /\ sound_spec /\ missing_spec /\ empty_spec (Spec/JoinSpec.v, MetaSpec.v)
+   -- composition of `generated code refines api_join` with `api_join satisfies the specs` *)
+From SSJ Require Import CodeLevelBase CodeLevelJoins CodeLevelJoins2 CodeLevelFilters CodeLevelMatcher CodeLevelTight.
+Theorem C03_code_edit_distance :
+  ltac:(let t := type of C03_code_edit_distance_exact in exact t).
+Proof. exact C03_code_edit_distance_exact. Qed.
+Print Assumptions C03_code_edit_distance.
+Theorem C03_code_edit_distance_soundness :
+  ltac:(let t := type of C03_code_edit_distance_sound in exact t).
+Proof. exact C03_code_edit_distance_sound. Qed.
+Print Assumptions C03_code_edit_distance_soundness.
